@@ -193,10 +193,44 @@ class Driver:
         self.c('imp_refl')
         return self.call('modus_ponens', m1, s1b)
 
+    def twins(self):
+        """two nodes over the SAME notation definition whose maps are keyed differently (same values under other keys, or a partial
+        map), both saved; then the later one is loaded: the Load must address the slot that holds it"""
+        rng = self.rng
+        T = rp.table()
+        cands = [it_ for it_ in T.items if it_[1].arity == 2 and it_[1].definition.metavars() == {0, 1}]
+        if not cands:
+            return
+        N_ = rng.choice(cands)[1]
+        a0 = self.build(rng.randint(0, 1)); self.call('pop', a0)
+        b0 = self.build(rng.randint(0, 1)); self.call('pop', b0)
+        if tb.of_repo(a0) == tb.of_repo(b0):
+            return
+        full = {0: a0, 1: b0}
+        other = rng.choice(({1: a0, 0: b0}, {0: a0}, {1: b0}, {1: a0}, {1: b0, 0: a0}))
+        first, second = (other, full) if rng.random() < 0.6 else (full, other)
+        nodes = []
+        for m in (first, second):
+            for v in m.values():
+                self.it.pattern(v)
+                self.journal.append(('pattern', (v,)))
+            d = self.it.pattern(N_.definition)
+            self.journal.append(('pattern', (N_.definition,)))
+            node = self.call('instantiate_pattern', d, dict(m))
+            self.call('save', str(len(self.tr.memory)), node)
+            self.call('pop', node)
+            nodes.append(node)
+        self.c('twin_notation_nodes')
+        for node in (nodes[1], nodes[0]):
+            self.call('load', 'twin', node)
+            self.call('pop', node)
+
     def junk(self):
         """stack/memory traffic: build, save, load, pop"""
         rng = self.rng
         r = rng.random()
+        if rng.random() < 0.06:
+            return self.twins()
         if r < 0.4:
             p = self.build(rng.randint(0, 2))
             if rng.random() < 0.5:
